@@ -38,20 +38,25 @@ def norm(v):
     return json.loads(json.dumps(v, default=lambda o: "<<" + type(o).__name__ + ">>"))
 
 
+class CaseTimeout(BaseException):
+    """raised by the per-case watchdog; not an Exception, so that no 'except Exception' in a driver or in the library under test can
+    swallow it and turn a slow machine into a bogus 'raises TimeoutError' observation"""
+
+
 def _alarm(signum, frame):
-    raise TimeoutError("case watchdog")
+    raise CaseTimeout("case watchdog")
 
 
 def _eval_one(item):
     idx, case = item
     signal.signal(signal.SIGALRM, _alarm)
-    limit = getattr(_mod, "CASE_TIMEOUT_S", CASE_TIMEOUT_S)
+    limit = getattr(_mod, "CASE_TIMEOUT_S", CASE_TIMEOUT_S) * int(os.environ.get("VERIF_CASE_TIMEOUT_FACTOR") or 1)
     signal.alarm(limit)
     try:
         res = _mod.evaluate(case)
         res = norm(res)
-    except TimeoutError:
-        res = {"harness_error": "timeout after %ds" % limit}
+    except CaseTimeout:
+        res = {"harness_error": "timeout after %ds" % limit, "timed_out": True}
     except HarnessError as e:
         res = {"harness_error": str(e)}
     except Exception:
@@ -89,15 +94,15 @@ def explain(mod, case, diffs, findings):
     return True, hits
 
 
-def fresh_eval(pid, case, root):
+def fresh_eval(pid, case, root, factor=1):
     """evaluate one case in a brand-new interpreter on the same scratch copy"""
     path = os.path.join(sut.scratch_base(), "sdpverif_case_%d_%s.json" % (os.getpid(), jhash(case)[:10]))
     with open(path, "w") as f:
         json.dump(case, f)
-    env = dict(os.environ, VERIF_SUT_DIR=root, PYTHONHASHSEED="0")
+    env = dict(os.environ, VERIF_SUT_DIR=root, PYTHONHASHSEED="0", VERIF_CASE_TIMEOUT_FACTOR=str(factor))
     try:
         p = subprocess.run([sut.PYTHON, "-m", "mc.cli", pid, "--eval-case", path], cwd=VERIF, env=env,
-                           capture_output=True, text=True, timeout=CASE_TIMEOUT_S * 3)
+                           capture_output=True, text=True, timeout=max(CASE_TIMEOUT_S, getattr(_mod, "CASE_TIMEOUT_S", 0)) * 3 * factor)
     finally:
         os.unlink(path)
     for line in reversed(p.stdout.splitlines()):
@@ -167,6 +172,14 @@ def run_check(pid, tier="quick", seed=0):
             for idx, res in _eval_chunk(ch):
                 results[idx] = res
 
+    # a case that hit the watchdog inside the (possibly overloaded) pool gets one more chance: alone, in a new interpreter, with three
+    # times the limit; only if it is still not finished is the run a harness error
+    for i, r in enumerate(results):
+        if r.get("timed_out"):
+            try:
+                results[i] = fresh_eval(mod.ID, cases[i], root, factor=3)
+            except (HarnessError, subprocess.TimeoutExpired) as e:
+                results[i] = {"harness_error": "timeout in the pool and no result from a fresh interpreter either: %s" % str(e)[:300]}
     findings = load_findings(mod.ID)
     herr = [(i, r) for i, r in enumerate(results) if "harness_error" in r]
     if herr:
